@@ -688,17 +688,17 @@ StylesheetExecutionContextDefault::pushVariable(
 {
     assert(m_xsltProcessor != 0);
 
-    if (str.empty() == false)
-    {
-        m_variablesStack.pushVariable(
-            name,
-            m_xsltProcessor->evalXPathStr(
-                            str,
-                            contextNode,
-                            resolver,
-                            *this),
-            element);
-    }
+    // An empty string is not an expression, and is reported as such
+    // when it is evaluated.  Skipping it left the parameter without a
+    // value, and every reference to it an undefined variable.
+    m_variablesStack.pushVariable(
+        name,
+        m_xsltProcessor->evalXPathStr(
+                        str,
+                        contextNode,
+                        resolver,
+                        *this),
+        element);
 }
 
 
